@@ -187,6 +187,21 @@ Theorem c07_padding_keeps_score : forall (A : Type) (op : A -> A -> A) (unit : A
 Proof. exact @spec_slp_padded. Qed.
 Print Assumptions c07_padding_keeps_score.
 
+(* sample stacking and re-scoring: a walk that ended early (every path has its eos) is padded
+   with rows of eos up to the longest walk among the samples; log_prob of the padded paths is
+   still the walk's reported log-probability *)
+Theorem c07_stacked_logprob_eq_walk_logp : forall (A : Type) (op : A -> A -> A) (unit : A),
+  (forall x, op unit x = x) -> (forall x, op x unit = x) ->
+  (forall x y z, op x (op y z) = op (op x y) z) ->
+  forall (lm : nat -> list Z -> list A) V eos N mi (draws : list (list Z)) (st : wstate) e k,
+  eos = Some e ->
+  (forall d, In d draws -> draw_ok V N d) -> draws <> [] ->
+  walk op unit lm eos N mi draws = Some st ->
+  (k = 0 \/ all_true (wfin st) = true) ->
+  dist_log_prob op unit lm V eos (paths_of N (wy st ++ repeat (repeat e N) k)) = wlp st.
+Proof. exact @stacked_logprob_eq_walk. Qed.
+Print Assumptions c07_stacked_logprob_eq_walk_logp.
+
 (* ---- "the wrapper's probabilities over its enumerated support sum to one and its samples lie in
         that support" -------------------------------------------------------------------------------- *)
 
